@@ -356,6 +356,49 @@ pub fn check(ctx: &Ctx, ws: &mut Workers, c: &Case12, counting: bool) -> PropRes
     }
 }
 
+/// thorough tier: a coverage-guided libFuzzer campaign against the reader (fuzz/fuzz_targets/parser.rs,
+/// oracle inside the target).  A crash artifact is re-checked as a `Text` case and reported.
+fn fuzz_campaign(ctx: &Ctx) {
+    let dir = ctx.verif_dir.join("fuzz");
+    let art = dir.join("artifacts").join("parser");
+    let _ = std::fs::remove_dir_all(&art);
+    let runs = ctx.n(0, 4_000_000).to_string();
+    let out = std::process::Command::new("cargo")
+        .args(["+nightly", "fuzz", "run", "--fuzz-dir"])
+        .arg(&dir)
+        .args(["parser"])
+        .arg(dir.join("corpus").join("parser"))
+        .args(["--", &format!("-runs={}", runs), "-max_len=120", &format!("-seed={}", ctx.seed.max(1)), "-rss_limit_mb=3000"])
+        .env("CARGO_NET_OFFLINE", "true")
+        .current_dir(&dir)
+        .output();
+    let Ok(out) = out else {
+        eprintln!("INFRA: cargo fuzz could not be started");
+        return;
+    };
+    let log = String::from_utf8_lossy(&out.stderr).to_string();
+    ctx.extra("libfuzzer_runs_requested", serde_json::json!(runs));
+    ctx.extra("libfuzzer_last_lines", serde_json::json!(log.lines().rev().take(3).collect::<Vec<_>>()));
+    let mut found = false;
+    if let Ok(rd) = std::fs::read_dir(&art) {
+        for e in rd.flatten() {
+            let bytes = std::fs::read(e.path()).unwrap_or_default();
+            let text = String::from_utf8_lossy(&bytes).to_string();
+            let msg = log.lines().skip_while(|l| !l.contains("C12 VIOLATION")).take(4).collect::<Vec<_>>().join("\n");
+            let kind = if e.file_name().to_string_lossy().starts_with("oom") { "out-of-memory" } else if e.file_name().to_string_lossy().starts_with("timeout") { "timeout" } else { "oracle" };
+            if kind == "timeout" {
+                continue;
+            }
+            found = true;
+            let f = Failure::new(format!("c12:libfuzzer:{}", kind), format!("libFuzzer artifact {}\ninput: {:?}\n{}", e.path().display(), text, msg));
+            ctx.violation("text", &Case12::Text(text), &f);
+        }
+    }
+    if !found {
+        ctx.stats.class_n("libfuzzer-executions-without-finding", runs.parse().unwrap_or(0));
+    }
+}
+
 pub fn run(ctx: &Ctx, replay: Option<&str>) -> i32 {
     ctx.set_rule(
         "(a) round trip: batches of 8 data of depth <=3 from fixnums (incl. extremes), bignums, ratios, doubles (incl. -0.0, \
@@ -487,5 +530,8 @@ pub fn run(ctx: &Ctx, replay: Option<&str>) -> i32 {
         },
     );
     report_failures(ctx, "program", fails);
+    if !ctx.quick() {
+        fuzz_campaign(ctx);
+    }
     ctx.finish()
 }
